@@ -369,7 +369,20 @@ def complete_writes(ctx, rule='C02.complete-writes', traces=None):
                                     grew = True
                 if not grew:
                     break
-            if used:
+            # ... and a short count is answered by writing the rest: the write sits in a loop.  A single `write` / `write_vectored` whose short count is turned into an error
+            # makes commits fail on what is not an I/O error (a vectored write is cut at IOV_MAX buffers, a pipe or a signal shortens any write)
+            in_loop = bb in fn.reach_from(fn.succ(bb))
+            if not in_loop:
+                # the write may sit in a helper that the caller loops around
+                for (cfn, cbb, tgt) in reversed([c[:3] for c in nd.ctx]):
+                    if cbb in cfn.reach_from(cfn.succ(cbb)):
+                        in_loop = True
+                        break
+            if used and not in_loop:
+                res.append(bad(rule, '%s | short write not continued (%s)' % (fn.qual, nm),
+                               '%s looks at the count returned by `%s` at %s but does not write the remainder (the call is not in a loop): a short write, which is not an error, makes the '
+                               'commit fail or leaves the tail unwritten' % (fn.qual, nm, fn.loc(bb)), where=fn.loc(bb)))
+            elif used:
                 res.append(ok(rule, '%s at %s: the returned count is examined' % (nm, fn.loc(bb)), sites=1))
             else:
                 res.append(bad(rule, '%s | partial write not handled (%s)' % (fn.qual, nm),
